@@ -127,6 +127,14 @@ func cmdReplay(args []string) int {
 			for _, in := range o.Inputs {
 				if v, ok := o.Model[in.Term]; ok {
 					inputs[in.Path] = renderValue(v, lits)
+					if in.Sort == sStr {
+						if b, ok := o.Model["(isPct "+in.Term+")"]; ok {
+							inputs[in.Path+"#isPct"] = b
+						}
+						if n, ok := o.Model["(pctNum "+in.Term+")"]; ok {
+							inputs[in.Path+"#pctNum"] = n
+						}
+					}
 				}
 			}
 			if out, ok, ran := tryReplay(fc, o, inputs); ran {
